@@ -134,6 +134,8 @@ type Scenario struct {
 	// SubCreds, if set, gives subscriber i its own credentials (index-aligned with Subscribers);
 	// an empty K means the configured ones. Several operators' subscribers in one process.
 	SubCreds []Cred `json:"sub_creds,omitempty"`
+	// ResetupPLMN, if set (MCC + MNC digits), is the PLMN a second NG Setup on the association announces.
+	ResetupPLMN string `json:"resetup_plmn,omitempty"`
 	// Quiet suppresses hex dumps in the event log (large population runs).
 	Quiet bool `json:"quiet,omitempty"`
 	// Rig specific free-form parameters (PS / LS rigs).
